@@ -440,13 +440,19 @@ def ob_async_request(run, interp):
     from rpyc.core import consts, brine
 
     def ob(o):
-        o.symbolic = ["argument: Int (unbounded: encoding may fail)", "transport failure at the k-th frame (none/0/1)", "two consecutive requests"]
+        o.symbolic = ["argument: Int (unbounded: encoding may fail) or an object whose boxing raises", "transport failure at the k-th frame (none/0/1)", "two consecutive requests"]
         acc = Acc()
+
+        class Unboxable(dict):
+            """an argument whose boxing fails: identifying it raises (hasattr on a class with a raising __getattr__)"""
+            __getattr__ = dict.__getitem__
 
         def harness(c):
             fail = [None, 0, 1][c.choose(3, "fail_at")]
             conn = make_conn(channel=RecChannel(fail))
             arg = SymInt(c.fresh_int("arg"))
+            if c.choose(2, "argument-kind") == 1:
+                arg = Unboxable()
             seen = []
             res = []
             c.notes.update(conn=conn, res=res, fail=fail)
@@ -481,7 +487,7 @@ def ob_async_request(run, interp):
                         else:
                             seqs.append(list(new)[0])
                     elif new:
-                        bad = "sending failed (%s) but the callback stayed registered" % st
+                        bad = "the request failed (%s) before reaching the wire but its callback stayed registered" % st
                 if len(conn._channel.frames) != len(seqs):
                     bad = bad or "%d frames for %d successful requests" % (len(conn._channel.frames), len(seqs))
                 if seqs != sorted(set(seqs)):
@@ -505,8 +511,10 @@ class FailChan(Chan):
         if self.at is not None and len(self.frames) == self.at: raise EOFError()
         Chan.send(self, d)
 bad = []
+class Unboxable(dict):
+    __getattr__ = dict.__getitem__
 for at in (None, 0, 1):
-    for arg in (5, 10 ** 5000):
+    for arg in (5, 10 ** 5000, Unboxable()):
         conn = Connection(VoidService(), FailChan(at))
         seqs = []
         for i in range(2):
@@ -514,11 +522,11 @@ for at in (None, 0, 1):
             try:
                 conn._async_request(consts.HANDLE_PING, (arg,), lambda a, b: None)
                 new = set(conn._request_callbacks) - before
-                if len(new) != 1: bad.append("registered %%r" %% new)
+                if len(new) != 1: bad.append("registered %r" % new)
                 seqs += list(new)
             except Exception as e:
-                if set(conn._request_callbacks) - before: bad.append("callback left after %%s" %% type(e).__name__)
-        if seqs != sorted(set(seqs)): bad.append("seqs %%r" %% seqs)
+                if set(conn._request_callbacks) - before: bad.append("callback left after %s" % type(e).__name__)
+        if seqs != sorted(set(seqs)): bad.append("seqs %r" % seqs)
         if [brine.load(f)[1] for f in conn._channel.frames] != seqs: bad.append("frame seqs differ")
         conn._closed = True
 print(bad)
